@@ -21,7 +21,7 @@ ExplainedBind(e) ==
   /\ WellFormed(e.inp)
   /\ LET ideal == Ideal(e.inp) IN
      IF ideal.k = "undef" THEN TRUE
-     ELSE IF e.obs = ideal THEN TRUE
+     ELSE IF e.obs \in Admissible(e.inp) THEN TRUE      \* = ideal, except where a name is passed explicitly and by a map splat
      ELSE LET dm == DevMap(e.inp) IN
           \E d \in (DOMAIN dm) \cap SeqSet(e.devs) :
              /\ (dm[d].k = "undef" \/ e.obs = dm[d])
